@@ -26,6 +26,9 @@ RULE = (
     "concatenated JSON documents has k documents whose 'severity' are the s_i in order. Plus, "
     "exhaustively, all 36 ordered severity pairs under <, <=, >, >=, ==, != against integer "
     "comparison. Non-trivial = k >= 2 with mixed verdicts; distinct = distinct (bytes, options)."
+    ' Also: the armed standard loader after a (lenient) with-block has come and gone is a face;'
+    ' the report check_safety writes itself is read back at every verbosity; PROTO opcodes of'
+    ' every version in odd places.'
 )
 ASSUMPTIONS = [
     "inputs on which the analysis raises belong to C19",
